@@ -27,10 +27,7 @@ Proof. exact directive_maps_first_line. Qed.
 Theorem C09_stmts_anchored : forall pr fuel b st ls st',
   wf_prog pr = true -> wf_stmts b = true -> all_ok (outf st) ->
   compile_stmts pr fuel b st = Ok (ls, st') -> ok ls.
-Proof.
-  intros pr fuel b st ls st' Hwf Hb Ha H. destruct (P_any pr Hwf fuel) as (_ & Pss & _).
-  destruct (Pss _ _ _ _ H Hb Ha) as [A _]. exact A.
-Qed.
+Proof. exact stmts_anchored. Qed.
 
 (* not vacuous: every positioned statement of a statement list DOES get a tagged line, the tagged lines come in
    source order, and no other line is tagged *)
@@ -54,6 +51,15 @@ Example C09_rel_examples :
   let a := [97]%N in let b := [98]%N in let c := [99]%N in let x := [120]%N in
   rel_path [a; b] [a; b; x] = [x] /\ rel_path [a; b; c] [a; x] = [dotdot; dotdot; x] /\ rel_path [a] [a] = [dot1].
 Proof. vm_compute. auto. Qed.
+
+(* ... and every top-level function and every method of the package has its Go function in the output (so the
+   function-entry half of the property is not vacuous either), whatever the order in which lazy loading
+   compiled them *)
+Theorem C09_all_functions_emitted : forall pr fuel out,
+  compile_prog fuel pr = Ok out ->
+  (forall g, In g (func_names pr) -> In g (map fst out)) /\
+  (forall g p dp hd dk body, In (DMethod g p dp hd dk body) pr -> In g (map fst out)).
+Proof. exact all_functions_emitted. Qed.
 
 (* termination: with distinct function names the model needs no more than prog_fuel (the summed sizes of the
    declarations), however the lazy loading nests; and it never panics *)
@@ -143,6 +149,7 @@ Print Assumptions C09_directive_maps_first_line.
 Print Assumptions C09_stmts_anchored.
 Print Assumptions C09_tags_exact.
 Print Assumptions C09_every_statement_emitted.
+Print Assumptions C09_all_functions_emitted.
 Print Assumptions C09_compile_total.
 Print Assumptions C09_directive_file_resolves.
 Print Assumptions C09_directive_maps_first_line_refuted_without_guard.
